@@ -324,6 +324,11 @@ func ruleJSONLEAF(c *Ctx, r *Report) {
 		}
 	}
 	got := strings.Join(setKeys(bare), ",")
+	for _, o := range leafOps {
+		if wrapped[o] {
+			r.bad(rule, "encoder|leaf-other-writer|"+o, c.pos(enc.Pos()), "for "+o+" leaves the encoder has a path that writes something other than json.Marshal of the payload (a hand-made quoting, a wrapper object): the bytes are not what the decoder's leaf case reads back, or are not JSON at all for some payloads")
+		}
+	}
 	if got == "expr.Literal,expr.Regexp,expr.Wild" {
 		r.ok(rule, "encoder|leaf-set", c.pos(enc.Pos()), got)
 	} else {
@@ -448,6 +453,10 @@ func ruleJSONPRINT(c *Ctx, r *Report) {
 				continue
 			}
 			for _, a := range p.Atoms {
+				if a.Kind == "type" && a.Pos && a.Subj == "$0.Left" && a.Val != "string" {
+					bad = true
+					r.bad(rule, fnName(fn)+"|payload-type|"+a.Val, c.instrPos(p.Ret), fmt.Sprintf("%s prints a %s payload in a way of its own: the decoder narrows whole floats to int (and infers kinds from text), so the same value can print differently before and after a JSON round trip", fnName(fn), a.Val))
+				}
 				if (a.Kind == "cmp" || a.Kind == "call") && (a.Subj == "$0.Op" || strings.Contains(a.Val, "$0.Op")) {
 					bad = true
 					r.bad(rule, fnName(fn)+"|"+a.String(), c.instrPos(p.Ret), fmt.Sprintf("%s (registered for %v) prints a leaf differently depending on its kind (%s): a quoted pattern prints one way from the parsed tree and another way after a JSON round trip", fnName(fn), ops, a.String()))
